@@ -250,6 +250,15 @@ def usageKvsAfterRestore (r : State) : Option (Nat × Nat) :=
   if r.kvs = [] then none
   else some (r.kvs.length, max (idxOr0 r.index kNodes) (max (idxOr0 r.index kServices) (idxOr0 r.index kKvs)))
 
+/-- What a restorer does to the index table (reviewed by reading agent/consul/state). -/
+inductive IdxEffect
+  | none        -- no index row written
+  | maxMerge    -- indexUpdateMaxTxn(row.ModifyIndex, table)
+  | rebuild     -- runs the write path (ensureRegistrationTxn / insertConfigEntryWithTxn / …): many index rows, computed
+  | verbatim    -- IndexRestore: the row itself
+  | overwrite   -- tx.Insert(tableIndex, {table, row.ModifyIndex}) — last row wins
+deriving DecidableEq, Repr
+
 /-- kind name of a record, as the harness names the message types of the real stream -/
 def Rec.kind : Rec → String
   | .session _ => "sessions"
